@@ -18,7 +18,7 @@ func init() {
 		FailState(c, "R-FAILSTATE", pkgs, 1)
 		RunOnce(c, "R-RUNONCE", c.Pkg("fp"), 10)
 		// state flows left to right: the StateT operands of a combinator are run / consulted in declaration order
-		EffOrder(c, "R-EFFORDER", []*packages.Package{c.Pkg("statet")}, 50)
+		EffOrder(c, "R-EFFORDER", []*packages.Package{c.Pkg("statet")}, 20)
 		Rel(c, "R-REL", []*packages.Package{c.Pkg("statet")}, func(p *packages.Package, fd *ast.FuncDecl, fn *types.Func) bool { return true }, nil, 100)
 		Rel(c, "R-REL", []*packages.Package{c.Pkg("fp")}, func(p *packages.Package, fd *ast.FuncDecl, fn *types.Func) bool {
 			sig := fn.Type().(*types.Signature)
